@@ -2,7 +2,7 @@
    total PoA caches for its 30 % test is that sum as it stood at the end of the previous block. *)
 From stdpp Require Import gmap.
 Require Import Model.Base Model.Ante Model.Validate Model.Current Model.State Model.Staking Model.Slashing Model.Poa Model.App.
-Require Import proofs.Inv proofs.InvIdx proofs.L1Effects proofs.InvPres proofs.InvMsgs proofs.InvHistory proofs.InvComet proofs.InvElig proofs.InvLive proofs.InvUpd.
+Require Import proofs.EvBasic proofs.Inv proofs.InvIdx proofs.L1Effects proofs.InvPres proofs.InvMsgs proofs.InvHistory proofs.InvComet proofs.InvElig proofs.InvLive proofs.InvUpd.
 Open Scope Z_scope.
 
 Definition tsum (m : gmap Z Z) : Z := map_fold (fun _ p acc => acc + p) 0 m.
@@ -276,11 +276,13 @@ Proof.
   intros HCI HT. unfold run_block. destruct (w_halted w) eqn:Hh; [cbn; rewrite Hh; discriminate|]. specialize (HT eq_refl).
   set (c0 := with_clock (w_chain w) (height (w_chain w) + 1) (now (w_chain w) + b_dt b)).
   assert (H0 : CI c0) by (apply CI_clock; exact HCI).
-  destruct (begin_block c0 _ (b_absent b)) as [c1|e] eqn:Eb; [|cbn; discriminate].
-  pose proof (begin_block_CI _ _ _ _ H0 Eb) as H1.
+  destruct (begin_block c0 _ (b_absent b) (b_evidence b)) as [c1|e] eqn:Eb; [|cbn; discriminate].
+  pose proof (begin_block_CI _ _ _ _ _ H0 Eb) as H1.
   assert (L1 : lp_same c0 c1).
-  { revert Eb. unfold begin_block. destruct (_ && _); [discriminate|]. destruct (handle_votes _ _ c0) as [cx|] eqn:E; [|discriminate]. intros [= <-].
-    apply handle_votes_lp in E. unfold poa_begin_block. destruct (1 <? height cx); exact E. }
+  { revert Eb. unfold begin_block. destruct (_ && _); [discriminate|]. destruct (handle_votes _ _ c0) as [cx|] eqn:E; [|discriminate].
+    destruct (handle_evidences _ cx) as [cy|] eqn:E2; [|discriminate]. intros [= <-].
+    apply handle_votes_lp in E. apply handle_evidences_frame in E2 as (_ & _ & _ & _ & _ & LP & _ & _ & _ & LT & _).
+    destruct E as [A B]. unfold poa_begin_block. destruct (1 <? height cy); (split; [exact (eq_trans LP A)|exact (eq_trans LT B)]). }
   pose proof (deliver_txs_CI (b_txs b) c1 H1) as H2. destruct (deliver_txs_lp (b_txs b) c1) as [L2 _].
   destruct (deliver_txs c1 (b_txs b)) as [c2 outs]. cbn in H2, L2.
   assert (T2 : TL (stk c2)).
@@ -321,14 +323,16 @@ Theorem cached_total_is_previous_set_total g bs b c1 txs : wf_genesis g ->
   let w := run_world (init_world g) bs in
   w_halted w = None -> 0 < height (w_chain w) ->
   begin_block (with_clock (w_chain w) (height (w_chain w) + 1) (now (w_chain w) + b_dt b))
-              (match c_prev (w_comet w) with Some vs => sorted_votes vs | None => [] end) (b_absent b) = inl c1 ->
+              (match c_prev (w_comet w) with Some vs => sorted_votes vs | None => [] end) (b_absent b) (b_evidence b) = inl c1 ->
   cached_power (poa (fst (deliver_txs c1 txs))) = tsum (last_pow (stk (w_chain w))) /\
   last_pow (stk (fst (deliver_txs c1 txs))) = last_pow (stk (w_chain w)).
 Proof.
   intros Hwf w Hh Hht Eb. pose proof (reachable_TL g bs Hwf Hh) as HT. fold w in HT.
   destruct (deliver_txs_lp txs c1) as [[L2 _] P2]. rewrite P2, L2.
-  revert Eb. unfold begin_block. destruct (_ && _); [discriminate|]. destruct (handle_votes _ _ _) as [cx|] eqn:E; [|discriminate]. intros [= <-].
+  revert Eb. unfold begin_block. destruct (_ && _); [discriminate|]. destruct (handle_votes _ _ _) as [cx|] eqn:E; [|discriminate].
+  destruct (handle_evidences _ cx) as [cy|] eqn:E2; [|discriminate]. intros [= <-].
   pose proof (handle_votes_height _ _ _ _ E) as Hhx. cbn in Hhx.
   apply handle_votes_lp in E as [A B]. cbn in A, B.
-  unfold poa_begin_block. destruct (Z.ltb_spec 1 (height cx)); [|lia]. cbn. rewrite B, A. auto.
+  apply handle_evidences_frame in E2 as (_ & _ & Hhy & _ & _ & LP & _ & _ & _ & LT & _).
+  unfold poa_begin_block. destruct (Z.ltb_spec 1 (height cy)); [|lia]. cbn. rewrite LT, LP, B, A. auto.
 Qed.
